@@ -669,7 +669,7 @@ def c02(ctx):
     q = ctx.tier == "quick"
     tops = S("message", "presence", "iq", "features", "streamerror", "success", "failure", "enabled", "resumed", "r", "a", "failed", "handshake",
              "cmessage", "ciq", "unknownns", "unknownname", "smunknown", "saslunknown")
-    fills = S("empty", "text", "known", "unknown", "same", "deep", "two", "errcond")
+    fills = S("empty", "text", "known", "unknown", "same", "deep", "two", "errcond", "regext")
     def cfg(n, t=tops, f=fills):
         return """SPECIFICATION GSpec
 CONSTANTS
@@ -684,9 +684,9 @@ CHECK_DEADLOCK FALSE
         scen = blines(vlib.tlc_mc(ctx, "StreamParser", "MC_StreamParser.cfg", cfgtext=cfg(2)))
         if not q:
             scen += blines(vlib.tlc_mc(ctx, "StreamParser", "MC_StreamParser.cfg",
-                                       cfgtext=cfg(3, S("message", "presence", "iq", "features", "r", "a", "cmessage", "unknownname"), S("empty", "known", "same", "two", "errcond"))))
+                                       cfgtext=cfg(3, S("message", "presence", "iq", "features", "r", "a", "cmessage", "unknownname"), S("empty", "known", "same", "two", "errcond", "regext"))))
         ctx.exhaustive = True
-        ctx.notes["bounds"] = "all streams of <= 2 top-level elements (thorough: <= 3 over a reduced alphabet) over 19 top-level kinds (stanzas of both namespaces, features, stream error, SASL, the six SM elements, handshake, unknown namespace / name) x 8 content shapes (empty, text, known child, unknown nested, descendant named like the element, 4-deep nesting, direct child named like the element, <error/> child with each of the 23 defined conditions with and without content / text / application condition); segmentations: whole, 1 byte per read, single split points, seeded multi-splits; every truncation of %d streams; %d single-byte corruptions" % ((6, 3000) if q else (60, 60000))
+        ctx.notes["bounds"] = "all streams of <= 2 top-level elements (thorough: <= 3 over a reduced alphabet) over 19 top-level kinds (stanzas of both namespaces, features, stream error, SASL, the six SM elements, handshake, unknown namespace / name) x 9 content shapes (children with every extension name registered at run time, carrying the attributes their Go types declare with odd but legal values; empty, text, known child, unknown nested, descendant named like the element, 4-deep nesting, direct child named like the element, <error/> child with each of the 23 defined conditions with and without content / text / application condition); segmentations: whole, 1 byte per read, single split points, seeded multi-splits; every truncation of %d streams; %d single-byte corruptions" % ((6, 3000) if q else (60, 60000))
         out, nev, _ = vlib.run_driver(ctx, "c02", scen=scen, args=["-splits", "12" if q else "60", "-trunc", "6" if q else "60", "-corrupt", "3000" if q else "60000"], timeout=3000)
         ctx.verdicts += vlib.tlc_trace(ctx, "TraceStreamParser", "Trace_StreamParser.cfg", out, nev, timeout=2400)
     replay_or(ctx, "c02", "TraceStreamParser", "Trace_StreamParser.cfg", full)
@@ -704,7 +704,7 @@ CONSTANTS
   AttrSets <- %s
   ErrKinds = %s
   MsgExts <- %s
-  PresExts = %s
+  PresExts <- %s
   IQPayloads <- %s
   SMKinds = %s
   TextClasses <- %s
@@ -723,14 +723,16 @@ def c01(ctx):
         sm = S("enable", "enabled", "r", "a", "resumed", "resume", "failed")
         gens = [
             # every subset of the five addressing attributes x error shapes x every text class, no extensions
-            codec_cfg(S("message", "presence", "iq", "sm", "auth", "handshake"), "AllAttrSets", allerr, "MsgExtsSome", S("muc"), "IQPl", sm, "TCAll", 0),
+            codec_cfg(S("message", "presence", "iq", "sm", "auth", "handshake"), "AllAttrSets", allerr, "MsgExtsSome", "PresExtsAll", "IQPl", sm, "TCAll", 0),
             # every single extension / payload, every text class
-            codec_cfg(S("message", "presence", "iq"), "FewAttrSets", S("none", "full"), "MsgExtsAll", S("muc"), "IQPl", "{}", "TCAll" if not q else "TCSome", 1),
+            codec_cfg(S("message", "presence", "iq"), "FewAttrSets", S("none", "full"), "MsgExtsAll", "PresExtsAll", "IQPl", "{}", "TCAll" if not q else "TCSome", 1),
             # every ordered pair of distinct message extensions (thorough: triples over a subset)
-            codec_cfg(S("message"), "FewAttrSets", S("none"), "MsgExtsAll", "{}", "NoneSet", "{}", "TCSome" if not q else "TCMixed", 2),
+            codec_cfg(S("message"), "FewAttrSets", S("none"), "MsgExtsAll", "NoneSet", "NoneSet", "{}", "TCSome" if not q else "TCMixed", 2),
         ]
+        # every ordered pair of distinct presence extensions, with and without an <error/> child
+        gens.append(codec_cfg(S("presence"), "FewAttrSets", S("none", "full"), "NoneSet", "PresExtsAll", "NoneSet", "{}", "TCMixed" if q else "TCSome", 2))
         if not q:
-            gens.append(codec_cfg(S("message"), "FewAttrSets", S("none"), "MsgExtsSome", "{}", "NoneSet", "{}", "TCMixed", 3))
+            gens.append(codec_cfg(S("message"), "FewAttrSets", S("none"), "MsgExtsSome", "NoneSet", "NoneSet", "{}", "TCMixed", 3))
         scen, seen = [], set()
         for g in gens:
             for b in blines(vlib.tlc_mc(ctx, "MC_Codec", "MC_Codec.cfg", cfgtext=g, timeout=900)):
@@ -739,7 +741,7 @@ def c01(ctx):
                     seen.add(k)
                     scen.append(b)
         ctx.exhaustive = True
-        ctx.notes["bounds"] = "message/presence/iq: every subset of {type,id,from,to,lang} x {no error, full error, error without text, error without legacy code} x 13 text classes (markup characters, CDATA terminator, whitespace forms, CR / CRLF / TAB, markup-dense text, non-ASCII); every registered message extension (16 of the 21; PubSubEvent, HTML, Delegation not populated), the MUC presence extension, IQ payloads {version, disco#info, disco#items, bind, roster, generic node tree}; every ordered pair of distinct message extensions; the 7 stream-management elements, <auth/>, <handshake/>; %d concretisations each" % (2 if q else 6)
+        ctx.notes["bounds"] = "message/presence/iq: every subset of {type,id,from,to,lang} x {no error, full error, error without text, error without legacy code} x 13 text classes (markup characters, CDATA terminator, whitespace forms, CR / CRLF / TAB, markup-dense text, non-ASCII); every registered message extension (16 of the 21; PubSubEvent, HTML, Delegation not populated), the MUC presence extension, 8 extensions registered by the harness through TypeRegistry.MapExtension whose local names are those of the core children (body, subject, thread, error; show, status, priority, error) in other namespaces, presence extensions in pairs, IQ payloads {version, disco#info, disco#items, bind, roster, generic node tree}; every ordered pair of distinct message extensions; the 7 stream-management elements, <auth/>, <handshake/>; %d concretisations each" % (2 if q else 6)
         out, nev, _ = vlib.run_driver(ctx, "c01", scen=scen, args=["-variants", "2" if q else "6"], timeout=2400)
         ctx.verdicts += vlib.tlc_trace(ctx, "TraceCodec", "Trace_Codec.cfg", out, nev, timeout=1800)
     replay_or(ctx, "c01", "TraceCodec", "Trace_Codec.cfg", full)
